@@ -130,6 +130,42 @@ theorem C06_marshal_scan (t : Ty) (ht : t.regular = true) (v d : Rep t) (hv : Do
   obtain ⟨d', s', h, e, _, _⟩ := rt_codec t ht v d (Stream.ofBytes (marshal t v ++ trail)) trail hv (by simp [marshal])
   exact ⟨d', by simp [scan, h], e⟩
 
+/-- **Histories.** Every packet of a history of `Marshal` calls is the single-call composition of its own fields,
+whatever was marshalled before it and whatever is marshalled after it (all packets are observed after the last
+call): `Marshal` never hands out bytes that a later call can change. -/
+theorem C06_marshal_history_independent (pre post : List Call) (c : Call) :
+    (marshalHist (pre ++ c :: post))[pre.length]? = some (marshal c.t c.v) := by
+  simp [marshalHist]
+
+/-- … hence, for values in their domain, packet `i` of ANY history is the wire layout of call `i`'s fields and
+`Scan` restores them into any destinations -/
+theorem C06_marshal_history_layout_scan (pre post : List Call) (c : Call) (ht : c.t.regular = true) (hv : Dom c.t c.v)
+    (d : Rep c.t) (trail : Bytes) :
+    ∃ data, (marshalHist (pre ++ c :: post))[pre.length]? = some data ∧ data = wire c.t (abs c.t c.v) ∧
+      ∃ d', scan c.t d (data ++ trail) = Res.ok d' ∧ abs c.t d' = abs c.t c.v := by
+  refine ⟨marshal c.t c.v, C06_marshal_history_independent pre post c, layout_codec c.t c.v hv, ?_⟩
+  exact C06_marshal_scan c.t ht c.v d hv trail
+
+theorem builderHist_getElem (calls : List Call) (acc : Bytes) (i : Nat) (hi : i < calls.length) :
+    (builderHist acc calls)[i]? = some (acc ++ ((calls.take (i + 1)).map fun c => marshal c.t c.v).flatten) := by
+  induction calls generalizing acc i with
+  | nil => simp at hi
+  | cons c cs ih =>
+    cases i with
+    | zero => simp [builderHist]
+    | succ i =>
+      simp only [builderHist, List.getElem?_cons_succ, List.take_succ_cons, List.map_cons, List.flatten_cons]
+      rw [ih (acc ++ marshal c.t c.v) i (by simpa using hi), List.append_assoc]
+
+/-- one reused `Builder`: the packet taken after call `i` holds the fields of calls `0..i` in order, and taking
+later packets (writing more fields) does not change it -/
+theorem C06_builder_history (calls : List Call) (i : Nat) (hi : i < calls.length) :
+    (builderHist [] calls)[i]? = some ((calls.take (i + 1)).map fun c => marshal c.t c.v).flatten := by
+  simpa using builderHist_getElem calls [] i hi
+
+example : marshalHist [⟨.pair .ushort .unit, (300#16, ())⟩, ⟨.pair .bool (.pair .ubyte .unit), (true, 7#8, ())⟩,
+    ⟨.unit, ()⟩] = [[0x01#8, 0x2c#8], [1#8, 7#8], []] := by decide
+
 /-! ### Stability of every decoder (C08 and C09 build on these) -/
 
 theorem C06_fragInv (t : Ty) (d : Rep t) : Rd.FragInv ((codec t).dec d) := fragInv_codec t d
